@@ -32,7 +32,7 @@ func init() {
 		ID:     "C01",
 		Word32: true,
 		Level:  "exploration",
-		Rule: "E1 bounded-exhaustive enumeration: every bitmap of B(n,0) ∪ B1(m) (≤n words over the 12-word core alphabet; ≤m words with exactly one word from the wide alphabet of single bits, low-j masks, complements and adjacent pairs) " +
+		Rule: "POPULATION CLASSES: ~9000 single words (every word with one or two 0-bits, three over 16 boundary positions, 0-runs cut at 4 or 6 of 12 boundaries, complements, 6 words of every popcount 0..64) alone, behind an all-ones word, in front of a sparse one and twice behind an empty one: all index kinds, all ranks at every position; then E1 bounded-exhaustive enumeration: every bitmap of B(n,0) ∪ B1(m) (≤n words over the 12-word core alphabet; ≤m words with exactly one word from the wide alphabet of single bits, low-j masks, complements and adjacent pairs) " +
 			"× {IndexRank64 (no option, false, true), IndexRank128} and × every position i × {Rank64 on the plain index, Rank64 on the trailing index, Rank128}; oracle = bit-by-bit running count; plus a length sweep (every length 0..N words × 4 word patterns, all index flavours, all positions) in which every returned index is compared once more after the NEXT bitmap's indexes have been built (an index must not change because another one is built), 195 bitmaps whose lengths lie within 9 words of every power of two from 2^10 to 2^16 words, and bitmaps of 2^18+3 and 2^20+5 words and - on 64-bit builds - of 2^25-1 and 2^25 words, i.e. up to the last position an int32 can name (complete index, ranks at the first and last 1024 positions and around every 1/16th). " +
 			"A case is one (bitmap, position) pair or one (bitmap, index flavour); it is non-trivial when the bitmap has ≥2 words, at least one 1 and at least one 0. Cases are distinct by construction (product of duplicate-free alphabets).",
 		Assumptions: []string{
@@ -110,6 +110,52 @@ func eqI32(a, b []int32) bool {
 }
 
 func c01Run(c *mc.Ctx) {
+	// POPULATION CLASSES of one word (c12PopWords): alone, behind an all-ones word, in front of a sparse one
+	// and twice behind an empty one - every index kind and Rank64 / Rank64 with trailing entry / Rank128 at
+	// every position: an implementation may count dense, ordinary and sparse words differently
+	{
+		pw := c12PopWords()
+		var exp int64
+		for _, l := range []int{1, 2, 2, 3} {
+			exp += int64(len(pw)) * (4 + 3*64*int64(l))
+		}
+		c.Expect(exp)
+		c.Par(len(pw), func(i int) {
+			var ev int64
+			for v, w := range [][]uint64{{pw[i]}, {^uint64(0), pw[i]}, {pw[i], 1 << 40}, {0, pw[i], pw[i]}} {
+				order := 11<<56 | int64(i)<<12 | int64(v)<<10
+				cs := c01Case{Words: append(gen.Words(nil), w...)}
+				for _, k := range []string{"IndexRank64", "IndexRank64/false", "IndexRank64/true", "IndexRank128"} {
+					if g, wnt := c01Judge(k, cs); g != wnt {
+						c.Fail(order, k, k+"/population-classes", cs, g, wnt)
+					}
+				}
+				ix64, _ := idxRank64(w)
+				ix64t, _ := idxRank64(w, true)
+				ix128, _ := idxRank128(w)
+				run := int32(0)
+				for pos := int32(0); pos < int32(64*len(w)); pos++ {
+					bit := int32(w[pos>>6] >> uint(pos&63) & 1)
+					if a, b, p := rank64(w, ix64, pos); p || a != run || b != bit {
+						cs.I = pos
+						c.Fail(order|int64(pos), "Rank64", "Rank64/population-classes", cs, "", "")
+					}
+					if a, b, p := rank64(w, ix64t, pos); p || a != run || b != bit {
+						cs.I = pos
+						c.Fail(order|int64(pos), "Rank64/trailing", "Rank64/trailing/population-classes", cs, "", "")
+					}
+					if a, b, p := rank128(w, ix128, pos); p || a != run || b != bit {
+						cs.I = pos
+						c.Fail(order|int64(pos), "Rank128", "Rank128/population-classes", cs, "", "")
+					}
+					run += bit
+				}
+				ev += 4 + 3*64*int64(len(w))
+			}
+			c.Count(ev, ev)
+			c.Add("population_class_bitmaps", 4)
+		})
+	}
 	sp := c01Space(c)
 	shards := sp.Shards()
 	c.Set("bitmap_space", fmt.Sprintf("B(%d,0) ∪ B1(%d): %d bitmaps, core alphabet %d words, wide alphabet %d words", sp.MaxCore, sp.MaxWide, sp.Card(), len(gen.Core), len(gen.Wide)))
